@@ -166,7 +166,56 @@ func (c *FuncCtx) declare(st *State, obj *types.Var, v *Val) {
 		st.vars[obj] = &Val{T: obj.Type(), S: ref, Sort: "Int"}
 		return
 	}
-	st.vars[obj] = v
+	st.vars[obj] = c.share(st, v, obj.Name())
+}
+
+// share names a large term by a fresh constant so that later terms refer to
+// it instead of copying it (keeps VCs linear in the path length).
+func (c *FuncCtx) share(st *State, v *Val, hint string) *Val {
+	if len(v.S) < 160 || v.Closure != nil {
+		return v
+	}
+	// slices and maps: keep the constructor visible (so that offset/length
+	// stay syntactically known) and name only the large components
+	if (strings.HasPrefix(v.Sort, "Sl_") || strings.HasPrefix(v.Sort, "Mp_")) && strings.HasPrefix(v.S, "(mk_"+v.Sort+" ") {
+		args := splitArgs(v.S[len("(mk_"+v.Sort+" ") : len(v.S)-1])
+		for i, a := range args {
+			if len(a) >= 120 {
+				var srt string
+				switch {
+				case strings.HasPrefix(v.Sort, "Sl_") && i == 0:
+					srt = fmt.Sprintf("(Array Int %s)", c.eng.sortOf(under(v.T).(*types.Slice).Elem()))
+				case strings.HasPrefix(v.Sort, "Sl_") && i < 3:
+					srt = "Int"
+				case strings.HasPrefix(v.Sort, "Mp_") && i == 0:
+					srt = fmt.Sprintf("(Array %s Bool)", c.eng.sortOf(under(v.T).(*types.Map).Key()))
+				case strings.HasPrefix(v.Sort, "Mp_") && i == 1:
+					m := under(v.T).(*types.Map)
+					srt = fmt.Sprintf("(Array %s %s)", c.eng.sortOf(m.Key()), c.eng.sortOf(m.Elem()))
+				default:
+					srt = "Bool"
+				}
+				args[i] = c.shareTerm(st, a, srt, hint)
+			}
+		}
+		nv := *v
+		nv.S = "(mk_" + v.Sort + " " + strings.Join(args, " ") + ")"
+		return &nv
+	}
+	n := c.fresh(hint, v.Sort)
+	st.assume(mkEq(n, v.S))
+	nv := *v
+	nv.S = n
+	return &nv
+}
+
+func (c *FuncCtx) shareTerm(st *State, term, sort, hint string) string {
+	if len(term) < 160 {
+		return term
+	}
+	n := c.fresh(hint, sort)
+	st.assume(mkEq(n, term))
+	return n
 }
 
 func (c *FuncCtx) execAssign(st *State, x *ast.AssignStmt) {
@@ -215,8 +264,8 @@ func (c *FuncCtx) evalCommaOk(st *State, e ast.Expr, n int) []*Val {
 		m := c.eval(st, x.X)
 		if mt, ok := under(m.T).(*types.Map); ok && n == 2 {
 			k := c.coerce(st, c.eval(st, x.Index), mt.Key())
-			in := mkSel(app("dom_"+m.Sort, m.S), k.S)
-			v := c.val(mkIte(in, mkSel(app("val_"+m.Sort, m.S), k.S), c.eng.zero(mt.Elem())), mt.Elem())
+			in := mkSel(acc("dom_"+m.Sort, m.S), k.S)
+			v := c.val(mkIte(in, mkSel(acc("val_"+m.Sort, m.S), k.S), c.eng.zero(mt.Elem())), mt.Elem())
 			st.assume(c.eng.typeFacts(v.S, v.T))
 			return []*Val{v, {T: tBool, S: in, Sort: "Bool"}}
 		}
@@ -253,7 +302,7 @@ func (c *FuncCtx) assign(st *State, lhs ast.Expr, v *Val) {
 			c.storeStruct(st, st.vars[obj].S, nv)
 			return
 		}
-		st.vars[obj] = nv
+		st.vars[obj] = c.share(st, nv, obj.Name())
 	case *ast.SelectorExpr:
 		base := c.evalLvalBase(st, x.X)
 		obj, path, _ := types.LookupFieldOrMethod(base.T, true, c.eng.pkg.Types, x.Sel.Name)
@@ -270,7 +319,7 @@ func (c *FuncCtx) assign(st *State, lhs ast.Expr, v *Val) {
 			c.safe(st, "nil", x.Pos(), mkNot(mkEq(cur.S, "0")), "nil dereference (write "+structName(p.Elem())+"."+fv.Name()+")")
 			k := heapKey(structName(p.Elem()), fv.Name())
 			arr := c.heapArr(st, structName(p.Elem()), fv.Name(), fv.Type())
-			st.heap[k] = mkStore(arr, cur.S, nv.S)
+			st.heap[k] = c.shareTerm(st, mkStore(arr, cur.S, nv.S), fmt.Sprintf("(Array Int %s)", c.eng.sortOf(fv.Type())), "H_"+structName(p.Elem())+"_"+fv.Name())
 			return
 		}
 		if len(path) != 1 {
@@ -297,18 +346,19 @@ func (c *FuncCtx) assign(st *State, lhs ast.Expr, v *Val) {
 		switch u := under(base.T).(type) {
 		case *types.Slice:
 			c.checkOwnedSlice(st, x.X)
+			idx = c.nameIndex(st, idx)
 			s := base.Sort
-			l := app("len_"+s, base.S)
+			l := acc("len_"+s, base.S)
 			c.safe(st, "index", x.Pos(), mkAnd(app("<=", "0", idx.S), app("<", idx.S, l)), "slice index in range (write)")
 			nv := c.coerce(st, v, u.Elem())
-			upd := &Val{T: base.T, S: app("mk_"+s, mkStore(app("base_"+s, base.S), mkAdd(app("off_"+s, base.S), idx.S), nv.S), app("off_"+s, base.S), l, app("nil_"+s, base.S)), Sort: s}
+			upd := &Val{T: base.T, S: app("mk_"+s, mkStore(acc("base_"+s, base.S), mkAdd(acc("off_"+s, base.S), idx.S), nv.S), acc("off_"+s, base.S), l, acc("nil_"+s, base.S)), Sort: s}
 			c.assign(st, x.X, upd)
 		case *types.Map:
 			s := base.Sort
-			c.safe(st, "nilmap", x.Pos(), mkNot(app("nil_"+s, base.S)), "assignment to entry in nil map")
+			c.safe(st, "nilmap", x.Pos(), mkNot(acc("nil_"+s, base.S)), "assignment to entry in nil map")
 			k := c.coerce(st, idx, u.Key())
 			nv := c.coerce(st, v, u.Elem())
-			upd := &Val{T: base.T, S: app("mk_"+s, mkStore(app("dom_"+s, base.S), k.S, tTrue), mkStore(app("val_"+s, base.S), k.S, nv.S), tFalse), Sort: s}
+			upd := &Val{T: base.T, S: app("mk_"+s, mkStore(acc("dom_"+s, base.S), k.S, tTrue), mkStore(acc("val_"+s, base.S), k.S, nv.S), tFalse), Sort: s}
 			c.checkOwnedMap(st, x.X)
 			c.assign(st, x.X, upd)
 		default:
@@ -635,6 +685,13 @@ func (c *FuncCtx) havocLoop(st *State, li *loopInfo) {
 		if c.heapLocals[o] {
 			continue // contents are havocked through the heap keys below
 		}
+		if sl, ok := under(o.Type()).(*types.Slice); ok && li.modHeap != nil && !li.modHeap.whole[o] {
+			// only elements are written: offset, length and nil-ness survive
+			nb := c.fresh(o.Name(), fmt.Sprintf("(Array Int %s)", c.eng.sortOf(sl.Elem())))
+			s := old.Sort
+			st.vars[o] = &Val{T: o.Type(), S: app("mk_"+s, nb, acc("off_"+s, old.S), acc("len_"+s, old.S), acc("nil_"+s, old.S)), Sort: s}
+			continue
+		}
 		nv := c.fresh(o.Name(), old.Sort)
 		st.vars[o] = &Val{T: o.Type(), S: nv, Sort: old.Sort}
 		st.assume(c.eng.typeFacts(nv, o.Type()))
@@ -765,7 +822,7 @@ func (c *FuncCtx) execRange(st *State, x *ast.RangeStmt) []outcome {
 	if isStr {
 		length = app("str.len", coll.S)
 	} else {
-		length = app("len_"+coll.Sort, coll.S)
+		length = acc("len_"+coll.Sort, coll.S)
 	}
 	li.extra[idxName] = &Val{T: tInt, S: "0", Sort: "Int"}
 	li.extra[fmt.Sprintf("coll_%d", li.ord)] = coll
@@ -783,7 +840,7 @@ func (c *FuncCtx) execRange(st *State, x *ast.RangeStmt) []outcome {
 	var outs []outcome
 	// exit
 	e := h.clone()
-	e.assume(app(">=", k, length))
+	e.assume(mkEq(k, length)) // 0 <= k <= length and not k < length
 	outs = append(outs, outcome{oNext, e})
 	// iteration
 	b := h.clone()
@@ -802,7 +859,7 @@ func (c *FuncCtx) execRange(st *State, x *ast.RangeStmt) []outcome {
 		bindKV(&Val{T: tInt, S: k, Sort: "Int"}, r)
 		next = mkAdd(k, w.S)
 	} else {
-		el := c.val(mkSel(app("base_"+coll.Sort, coll.S), mkAdd(app("off_"+coll.Sort, coll.S), k)), under(coll.T).(*types.Slice).Elem())
+		el := c.val(mkSel(acc("base_"+coll.Sort, coll.S), mkAdd(acc("off_"+coll.Sort, coll.S), k)), under(coll.T).(*types.Slice).Elem())
 		b.assume(c.eng.typeFacts(el.S, el.T))
 		bindKV(&Val{T: tInt, S: k, Sort: "Int"}, el)
 		next = mkAdd(k, "1")
